@@ -79,6 +79,11 @@ def run(ctx: Context, col) -> None:
         init = f1[3]
         ok_init = init == ("app", "zeros", (("tuple", (nA, nS, nS)),))
         f2 = f1[4]
+        if not (f2[0] == "fold" and f2[3] == f1[5]):
+            # an accumulation from zeros exists, but not as the event x action double loop this rule can read term by term
+            # (e.g. one broadcast scatter per event): neither equality nor difference with the documented sum can be shown
+            raise AnalysisError("Problem.build_transition_and_reward_matrices: P is accumulated from zeros, but not by a loop over events "
+                                f"and actions with one scatter-add each (one step is {brief(f2, 160)}); R17.2 cannot be decided")
         if f2[0] == "fold" and f2[3] == f1[5]:
             v1, c1, v2, c2 = f1[1], f1[2], f2[1], f2[2]
             step = f2[4]
